@@ -97,27 +97,25 @@ impl Number {
     /// converting the resulting BigRational into the most appropriate
     /// Number type.
     pub fn parse_rational(text: &str, radix: u32) -> Option<Number> {
-        match Rational32::from_str_radix(text, radix) {
+        // Parse without a width limit first: reducing a 32 bit ratio whose
+        // numerator or denominator is i32::MIN overflows.
+        match BigRational::from_str_radix(text, radix) {
             Ok(num) => {
                 if num.is_integer() {
-                    Some(Number::from(num.to_i64().unwrap()))
+                    match num.to_i64() {
+                        Some(num) => Some(num.into()),
+                        None => Some(num.to_integer().into()),
+                    }
                 } else {
-                    Some(num.into())
-                }
-            }
-            Err(_) => match BigRational::from_str_radix(text, radix) {
-                Ok(num) => {
-                    if num.is_integer() {
-                        match num.to_i64() {
-                            Some(num) => Some(num.into()),
-                            None => Some(num.to_integer().into()),
+                    match (num.numer().to_i32(), num.denom().to_i32()) {
+                        (Some(numer), Some(denom)) => {
+                            Some(Rational32::new_raw(numer, denom).into())
                         }
-                    } else {
-                        Some(num.to_f64().unwrap_or(f64::NAN).into())
+                        _ => Some(num.to_f64().unwrap_or(f64::NAN).into()),
                     }
                 }
-                Err(_) => None,
-            },
+            }
+            Err(_) => None,
         }
     }
 
